@@ -291,6 +291,17 @@ def view_histories(ctx, q):
     return out
 
 
+def large_histories(ctx, q):
+    """populations of a few hundred files walked twice (and indexed from both ends in between): 'at most once' has no size limit"""
+    n1, n2 = (150, 140) if q else (400, 300)
+    dirs = [["f%03d" % k for k in range(n1)], ["sub/g%03d" % k for k in range(n2)]]
+    h1 = [{"a": "from_swc", "r": 1, "order": []}, {"a": "iter", "o": 2}, {"a": "index", "o": 2, "key": 0}, {"a": "index", "o": 2, "key": -1},
+          {"a": "iter", "o": 2}, {"a": "index", "o": 1, "key": n1 // 2}]
+    h2 = [{"a": "from_swc", "r": 1, "order": []}, {"a": "from_swc", "r": 2, "order": []}, {"a": "iter", "o": 2}, {"a": "iter", "o": 4},
+          {"a": "index", "o": 2, "key": 3}, {"a": "slice", "o": 2, "lo": 99, "hi": 99, "st": -1}, {"a": "iter", "o": 5}, {"a": "iter", "o": 4}]
+    return [{"dirs": dirs[:1], "junk": {}, "hist": h1}, {"dirs": dirs, "junk": {}, "hist": h2}]
+
+
 def run(ctx):
     q = ctx.tier == "quick"
     ctx.mc("MC_Population", "MC_Population.%s.cfg" % ctx.tier, deadlock=False, coverage=False, timeout=3000)
@@ -314,6 +325,9 @@ def run(ctx):
         vh = view_histories(ctx, q)
         p = ctx.write_cases("slices-of-views", vh)
         ctx.run_cases("slices-of-views", vh, p, exec_hist, "Trace_Population", keyfn, nontrivial)
+        lh = large_histories(ctx, q)
+        p = ctx.write_cases("large-populations", lh)
+        ctx.run_cases("large-populations", lh, p, exec_hist, "Trace_Population", keyfn, nontrivial, per_case_timeout=300)
         fr = free_histories(ctx, 150 if q else 3000)
         p = ctx.write_cases("free", fr)
         ctx.run_cases("free", fr, p, exec_hist, "Trace_Population", keyfn, nontrivial)
